@@ -5,7 +5,7 @@
 From Coq Require Import List NArith ZArith Bool Lia.
 From PM Require Import Base.Bytes Base.Outcome Gen.GenConsts Model.ScriptAst Model.Enqueue Model.Script Model.Device Model.DevHarness
                        Model.Client Model.CliWorld Model.Daemon Spec.Proto
-                       Proofs.ClientProto Proofs.ClientStream Proofs.DeviceInv Proofs.DeviceRun Proofs.DeviceInvG Proofs.DeviceRunG Proofs.DaemonLedger Proofs.DaemonFrame
+                       Proofs.ClientProto Proofs.ClientStream Proofs.DeviceInv Proofs.DeviceRun Proofs.DeviceInvG Proofs.DeviceRunG Proofs.DeviceHang Proofs.DaemonLedger Proofs.DaemonFrame
                        Proofs.DaemonPending Proofs.DeviceMask Proofs.DeviceDeadline Proofs.DaemonDeadline.
 From PM Require Properties.C07.
 Import ListNotations.
@@ -16,9 +16,9 @@ Definition ex_st : daemon :=
 Lemma ex_boot : boot C07.ex_compress ex_st.
 Proof.
   split; [reflexivity|]. split; [reflexivity|]. constructor; [|constructor].
-  destruct (mk_device_invG C07.ex_compress (bslit "d0") [mkPlug (bslit "p1") (Some (bslit "n1"))]
+  destruct (mk_device_invH C07.ex_compress (bslit "d0") [mkPlug (bslit "p1") (Some (bslit "n1"))]
              [(PM_LOG_IN, [Send (bslit "login\n"); Expect (bslit "ok")]); (PM_POWER_ON, [Send (bslit "on %s\n"); Expect (bslit "done")])] 5000000 0
-             C07.C07_cfg_ok_example) as [H1 H2].
+             C07.C07_cfg_ok_example (proj1 C07.C07_nest_ok_example)) as [H1 H2].
   split; [exact H1|]. split; [exact H2|]. split; reflexivity.
 Qed.
 Definition ex_expand (t : text) : option (list text) := Some [t].
@@ -78,6 +78,5 @@ Proof.
   pose proof (dstep_deadline ex_expand ex_join ex_join (fun l => l) C07.ex_rmatch C07.ex_compress false s3 r4 1
                 (proj1 s3_inv) (proj1 (proj2 s3_inv)) ltac:(rewrite (proj2 (proj2 s3_inv)); unfold INT_MAX; lia) s3_due) as H.
   destruct (xstep s3 r4) as [[st' o]| | | |] eqn:E; try contradiction.
-  - destruct H as (_ & Q & A). split; [exact Q|]. split; [exact A|]. vm_compute in E. injection E as <- _. reflexivity.
-  - vm_compute in E. discriminate E.
+  destruct H as (_ & Q & A). split; [exact Q|]. split; [exact A|]. vm_compute in E. injection E as <- _. reflexivity.
 Qed.
